@@ -57,7 +57,12 @@ def run(ctx):
     for _ in range(250 if ctx.quick else 5000):
         k = rng.randint(2, 5)
         lists = [sorted(rng.sample(range(8), rng.randint(1, 5))) for _ in range(k)]
-        cases.append({"kind": "swaps", "lists": lists, "radix": rng.choice([2, 3, 4, 8]), "lat": rng.choice([1, 2, 3, -1, -1]), "deep": rng.choice([0, 0, 1])})
+        cases.append({"kind": "swaps", "lists": lists, "radix": rng.choice([2, 3, 4, 8]), "lat": rng.choice([1, 2, 3, -1, -1]), "deep": rng.choice([0, 0, 1]), "lists2": []})
+        if rng.random() < 0.4:
+            # two sibling groups with different numbers of lists (fewer than the radix first, more than it second, and the other way round)
+            k2 = rng.randint(1, 6)
+            cases.append({"kind": "swaps", "lists": lists, "radix": rng.choice([2, 3, 4, 8]), "lat": rng.choice([1, 2, 3, -1, -1]), "deep": 1,
+                          "lists2": [sorted(rng.sample(range(8), rng.randint(1, 5))) for _ in range(k2)]})
     part = family.run_family(ctx, "C19", cases, "harness.exec_cost", "CostTrace.tla", "CostTrace.cfg",
                              op_of=lambda c, lg, st: c["kind"], where_of=lambda c, lg, st: where(c),
                              nontrivial=lambda c, lg: True)
